@@ -54,7 +54,7 @@ def _exc(kind: str):
 
 
 EXC_KINDS = ["value", "group", "conn", "closed", "timeout", "mixed", "conngroup"]
-TCP_POSITIONS = ["parse-error-after-valid", "conn-before", "conn-after", "handle-before-yield", "handle-after-request", "handle-in-except", "disconnect", "reset-after-accept", "reraise-parse-error", "yield-invalid-timeout"]
+TCP_POSITIONS = ["parse-error-after-valid", "conn-before", "conn-after", "handle-before-yield", "handle-after-request", "handle-in-except", "disconnect", "reset-after-accept", "reraise-parse-error", "yield-invalid-timeout", "peer-error-after-request"]
 UDP_POSITIONS = ["handle-before-yield", "handle-after-request", "handle-in-except", "reraise-parse-error", "yield-invalid-timeout"]
 
 
@@ -99,6 +99,11 @@ class TcpHandler(AsyncStreamRequestHandler):
             if who == "F" and self.position == "reraise-parse-error":
                 raise
             return
+        except GeneratorExit:
+            raise
+        except BaseException as e:  # noqa: BLE001
+            self.log.append(("thrown", who, type(e).__name__))
+            raise
         self.log.append(("req", who, req))
         await client.send_packet(req)
         if who == "F" and self.position == "handle-after-request":
@@ -174,6 +179,17 @@ def tcp(position: str, K: int, prefix: list = (), path: str = "copy"):
                     raise ConnectionResetError(104, "reset")
                 tf.recv = reset
                 tf.recv_into = reset
+            if position == "peer-error-after-request":
+                # the connection breaks (any ConnectionError flavour) while the handler waits for the next request: a disconnect
+                peer_exc = S.pick(["ConnectionResetError", "ConnectionAbortedError", "BrokenPipeError"], "peer_error")
+                orig_wait = tf._wait_readable
+
+                async def wait_then_break():
+                    if tf.rpos >= len(f_stream):
+                        raise {"ConnectionResetError": ConnectionResetError(104, "reset"), "ConnectionAbortedError": ConnectionAbortedError(103, "aborted"), "BrokenPipeError": BrokenPipeError(32, "pipe")}[peer_exc]
+                    await orig_wait()
+
+                tf._wait_readable = wait_then_break
             be.listeners[0].connect(tf)
             loop.step()
             be.listeners[0].connect(th)
@@ -212,6 +228,10 @@ def tcp(position: str, K: int, prefix: list = (), path: str = "copy"):
                 problems.append(f"on_disconnection ran {disc} times for the faulty client although on_connection completed")
             if not conn_ok and disc != 0:
                 problems.append("on_disconnection ran although on_connection did not complete")
+            if position == "peer-error-after-request":
+                thrown = [ev for ev in log if ev[0] == "thrown"]
+                if thrown:
+                    problems.append(f"a client disconnection (connection error on receive) was thrown into the request handler instead of closing its generator: {thrown}")
             th.feed_eof()
             for _ in range(20):
                 loop.step()
@@ -290,7 +310,7 @@ def shards(tier: str):
     for pos in TCP_POSITIONS:
         for pre in range(3):
             out.append({"name": f"tcp/{pos}/K{K}/pre{pre}", "scenario": "props.c17:tcp", "params": dict(position=pos, K=K, prefix=[pre]), "budget": B, "cost": 7 * 3**K, "per_path_timeout": 30})
-    for pos in ("parse-error-after-valid", "handle-in-except", "handle-after-request", "reset-after-accept"):
+    for pos in ("parse-error-after-valid", "handle-in-except", "handle-after-request", "reset-after-accept", "peer-error-after-request"):
         for pre in range(3):
             out.append({"name": f"tcp-buf/{pos}/K{K}/pre{pre}", "scenario": "props.c17:tcp", "params": dict(position=pos, K=K, prefix=[pre], path="buf"), "budget": B, "cost": 7 * 3**K, "per_path_timeout": 30})
     for pos in UDP_POSITIONS:
